@@ -3,7 +3,9 @@
 Every clause is decided on the enumerated paths of the abstract interpreter (path condition, ordered call / store / await events,
 returned term), with `Runtime::block_on(fut)` and `tokio::spawn(fut)` modelled as "the future is run": an `async move { .. }`
 block is evaluated where it is driven, any other future value is awaited there.  Local names, statement order of independent
-`let`s, `?` versus an explicit `match`, `Result::map`, named futures and helper functions therefore do not matter."""
+`let`s, `?` versus an explicit `match`, `Result::map`, named futures and helper functions (plain or `async fn`, awaited in place or handed to block_on as a future) therefore
+do not matter.  A `clone()` is its receiver only where the workspace's Clone impls make it a faithful copy (cloneid).  D is about the public
+surface: a private helper of LdapConn has no sibling and is judged through its callers."""
 import re
 from facts import walk, callee_of, loc
 import hirq, absx, sem, cloneid
@@ -16,13 +18,16 @@ EXPLANATION = ("For every LdapConn method with a same-named Ldap method, on ever
                "synchronous sibling LdapConn::x stands for the awaited Ldap::x. Signatures agree modulo async / SearchStream -> EntryStream. "
                "Constructors: new / with_settings / from_url (both families) amount to from_url_with_settings(settings or LdapConnSettings::new(), "
                "url or Url::parse(url)?) and return its result unmodified; LdapConn::from_url_with_settings builds a current-thread runtime with all "
-               "drivers enabled, runs LdapConnAsync::from_url_with_settings(settings, url) on it, on success spawns conn.drive() inside that runtime "
+               "drivers enabled, runs LdapConnAsync::from_url_with_settings(settings, url) on it - with the caller's own settings value: moved, or moved out of a `&mut` to it "
+               "by mem::take / mem::replace; a clone() of it only if the crate's Clone impls make that clone a faithful copy, field by field (a hand-written Clone that answers a constant, "
+               "as StdStream's, does not) -, on success spawns conn.drive() inside that runtime "
                "and keeps that runtime and the returned handle, on failure returns the error unmodified and spawns nothing. "
                "EntryStream::next/result/last_id delegate to SearchStream::next/finish/ldap_handle().last_id(); the two stream wrappers are evaluated from every value of the stream's state "
                "(the stream's `&self` accessors evaluated), and a path that answers by itself is accepted exactly when the asynchronous method, entered with the same state under the same tests, returns the same value "
                "on every path and does nothing. Decided completely for what the type "
                "checker cannot see: swapped same-typed arguments, a wrong same-typed method, a dropped or altered modifier.")
-TRUSTED = ['tokio current-thread runtime block_on returns the future\'s output']
+TRUSTED = ['tokio current-thread runtime block_on returns the future\'s output',
+           'Clone::clone of a type defined outside the workspace is a faithful copy when the clones of its type arguments are (std\'s Clone contract); Clone impls of the workspace are evaluated (rules/cloneid.py)']
 UNDECIDED = ['behaviour of the private current-thread runtime (tokio)']
 ASSUMPTIONS = []
 CONFIGS = ['default', 'rustls', 'gssapi']      # the `sync` feature is off in the no-default-features configuration
